@@ -427,6 +427,23 @@ func (w *queueWorld) activeCount(uid string, except string) int64 {
 	return n
 }
 
+// knowableActiveCount is the size of the union of Jobs active in the API and Jobs active in the cache.
+func (w *queueWorld) knowableActiveCount(uid string, except string) int64 {
+	names := map[string]bool{}
+	for _, rj := range w.jobs() {
+		if u, ok := ownedByConfig(rj); ok && u == uid && rj.Name != except && jobutil.IsActive(rj) {
+			names[rj.Name] = true
+		}
+	}
+	for _, o := range w.Ctx.Set.Jobs.GetIndexer().List() {
+		rj := o.(*execution.Job)
+		if u, ok := ownedByConfig(rj); ok && u == uid && rj.Name != except && jobutil.IsActive(rj) {
+			names[rj.Name] = true
+		}
+	}
+	return int64(len(names))
+}
+
 // cachedActiveCount counts active Jobs as delivered to the controller's cache.
 func (w *queueWorld) cachedActiveCount(uid string, except string) int64 {
 	var n int64
@@ -469,8 +486,9 @@ func (w *queueWorld) onWrite(wr sim.Write) {
 				w.Violate("C06", "non-forbid-rejected", fmt.Sprintf("job %s with policy %q was refused", new.Name, p), w.features()...)
 			}
 			if uid, ok := ownedByConfig(new); ok {
-				if jc := w.jc(); jc != nil && w.activeCount(uid, new.Name) < jc.Spec.Concurrency.GetMaxConcurrency() &&
-					w.cachedActiveCount(uid, new.Name) < jc.Spec.Concurrency.GetMaxConcurrency() {
+				// knowable active Jobs: active in the API (the controller's own starts included) or still
+				// active in its cache (a finish event in flight cannot be known)
+				if jc := w.jc(); jc != nil && w.knowableActiveCount(uid, new.Name) < jc.Spec.Concurrency.GetMaxConcurrency() {
 					w.Violate("C06", "rejected-below-limit", fmt.Sprintf("Forbid job %s refused while only %d job(s) are active (max %d)", new.Name, w.activeCount(uid, new.Name), jc.Spec.Concurrency.GetMaxConcurrency()), w.features()...)
 				}
 			}
